@@ -34,6 +34,7 @@ THEOREMS = [
     "Ural.Props.C03.unquoters_emit_no_cleaned_character",
     "Ural.Props.C03.canonical_form_has_no_cleaned_character",
     "Ural.Props.C03.clean_canonical_partial",
+    "Ural.Props.C03.normalize_cleaning_canonical_partial",
     "Ural.Props.C03.not_fullCleanCanonical",
 ]
 TABLE_OBLIGATIONS = [
@@ -42,6 +43,9 @@ TABLE_OBLIGATIONS = [
     "Ural.Props.C03.control_class_stays_escaped",
     "Ural.Props.C03.strip_class_stays_escaped",
     "Ural.Props.C03.cleaning_classes_model",
+    "Ural.Props.C03.reparse_separators_stay_escaped",
+    "Ural.Props.C03.parser_removals_are_cleaned",
+    "Ural.Props.C03.escape_recognisers_agree",
 ]
 RULE = (
     "A case is a collision class: a base URL (structured components over the quantifier's token "
